@@ -146,7 +146,8 @@ def judge(setting, obs):
     # probes are judged against the documented configuration only when the
     # variables were read correctly (otherwise the mismatch above is the
     # finding and everything else is its consequence)
-    if not config_ok:
+    if not config_ok or obs["context_after_probes"] != base or \
+            any(n["after"] != base for n in obs["nesting"]):
         counts.append("env:probes_skipped_config_already_wrong")
         return out, counts
     for pr in obs["probes"]:
